@@ -83,6 +83,14 @@ def run_task(task):
     res = {"violations": [], "counters": {}}
     changes = task["changes"]
     lc = "sim[" + ", ".join(engine.letter_class(s, w) for s in changes) + "]"
+    zone_changed = "no"
+    for s_ in changes:
+        if s_[0] == "set" and s_[2] == "timezone":
+            zone_changed = "yes"
+        if s_[0] == "link" and s_[2] == "country":
+            old_c = w["objects"][s_[1]]["attrs"]["country"][1]
+            if w["objects"][old_c]["attrs"]["timezone"] != w["objects"][s_[3]]["attrs"]["timezone"]:
+                zone_changed = "yes"
     kind = task["date_kind"]
     lo, hi = modelled_period(m)
     if kind == "first":
@@ -168,7 +176,7 @@ def run_task(task):
                 if first is not None and first < d_ns - 1:
                     hk = holder_key(v)
                     res["violations"].append({
-                        "sig": {"clause": "hour-before-simulation-date", "change": lc,
+                        "sig": {"clause": "hour-before-simulation-date", "change": lc, "zone_changed": zone_changed,
                                 "where": S.class_attr(m.objs[hk[0]], hk[1]) if hk else "?"},
                         "detail": {"date": date, "first_hour": ns_to_date(first), "holder": hk}})
                     break
